@@ -355,19 +355,25 @@ func stressRegister(im *seqImpl, out *stressOut, dur time.Duration) {
 			}
 		}()
 	}
-	wg.Add(1)
-	go func() {
-		defer wg.Done()
-		for {
-			select {
-			case <-stop:
-				return
-			default:
+	// several collector passes at once (the periodic pass runs on a pool with more than one worker,
+	// and nothing serialises passes): the model allows any number of collector goroutines
+	for g := 0; g < 3; g++ {
+		wg.Add(1)
+		go func(g int) {
+			defer wg.Done()
+			for {
+				select {
+				case <-stop:
+					return
+				default:
+				}
+				_ = im.d.container.Cleaner().DeleteOld(ctx)
+				if g == 0 {
+					time.Sleep(300 * time.Microsecond)
+				}
 			}
-			_ = im.d.container.Cleaner().DeleteOld(ctx)
-			time.Sleep(300 * time.Microsecond)
-		}
-	}()
+		}(g)
+	}
 	time.Sleep(dur)
 	close(stop)
 	wg.Wait()
